@@ -84,6 +84,7 @@ def _make_recorder_class():
         def c04_arm(self, ctrl, script, reqs, log):
             self.c_ctrl, self.c_script, self.c_reqs, self.c_log = ctrl, script, reqs, log
             self.c_pending = None
+            self.c_budget = 20 * (len(self.code.phases["p"].statements) + 5)
 
         def c04_resolve(self, full):
             if self.c_pending is None:
@@ -101,6 +102,9 @@ def _make_recorder_class():
 
         def evaluate_condition(self, stmt):
             i = _num(stmt.id)
+            self.c_budget -= 1
+            if self.c_budget < 0:       # a controller that keeps re-planning would never stop
+                raise RuntimeError("runaway: more callbacks than any duplicate-free run can make")
             snap = [_num(x) for x in self.c_ctrl.plan]
             self.c04_resolve([i] + snap)
             self.c_log.append(["cond", i, snap])
@@ -242,7 +246,7 @@ def run_impl(cases, hashseeds, tmp):
         procs.append((hs, dst, p))
     out = {}
     for hs, dst, p in procs:
-        so, se = p.communicate(timeout=1500)
+        so, se = p.communicate(timeout=900)
         if p.returncode != 0 or not os.path.exists(dst):
             raise RuntimeError("worker for PYTHONHASHSEED=%d failed: %s" % (hs, (so + se)[-2000:]))
         out[hs] = json.load(open(dst))
@@ -681,7 +685,7 @@ def gen_cases(tier, seed):
             cases.append({"mode": "step", "stmts": _stmts(rng, deps), "ops": [["step", script]]})
     n_lab = len(cases) - n_corpus - n_exh
     # random structured
-    nrand = 2000 if tier == "quick" else 30000
+    nrand = 2000 if tier == "quick" else 12000
     modes = {"step": 0, "step2": 0, "api": 0, "malformed": 0}
     for _ in range(nrand):
         n = rng.choice([1, 2, 3, 4, 5, 6, 7, 8, 9, 10, 11, 12, 12, 12])
@@ -737,7 +741,8 @@ def gen_cases(tier, seed):
 
 def _size(case):
     return (len(case["stmts"]) * 100 + sum(len(s[1]) for s in case["stmts"]) * 10 + len(case["ops"]) * 5
-            + sum(len(op[1]) for op in case["ops"] if op[0] in ("run", "step")))
+            + sum(len(op[1]) for op in case["ops"] if op[0] in ("run", "step"))
+            + sum(1 for s in case["stmts"] if s[2] != "Nop"))
 
 
 def _drop_node(case, k):
@@ -818,11 +823,19 @@ def main(tier):
     rep = common.Reporter(PID, tier)
     seed = common.seed()
     ps = common.proof_stage(rep, PID, gen=[])
-    hashseeds = [0, 1, 2, 3, 4] if tier == "quick" else [0, 1, 2, 3, 4, 5, 6, 7]
+    hashseeds = [0, 1, 2, 3, 4] if tier == "quick" else [0, 1, 2, 3, 4, 5]
     tmp = tempfile.mkdtemp(prefix="c04_")
     try:
         cases, dist = gen_cases(tier, seed)
-        results = run_impl(cases, hashseeds, tmp)
+        try:
+            results = run_impl(cases, hashseeds, tmp)
+        except Exception as ex:  # noqa: BLE001 - fail closed: the tie cannot be checked
+            rep.violation({"what": "the implementation could not be driven (worker failed or timed out)",
+                           "detail": "%s: %s" % (type(ex).__name__, str(ex)[-1500:]),
+                           "broken": "correspondence ExecutionController ~ Dagrt.Controller"}, no_input=True)
+            rep.coverage.update(evaluations=0, distinct_nontrivial=0, rule="worker failed", samples=[],
+                                traces_validated_against_impl=0)
+            return rep.finish("proof")
 
         # implementation-level oracle on every (case, hash seed)
         failing = {}
